@@ -24,6 +24,8 @@ BIN = "c04"       # C04 and C05 share the harness binary and the Lean driver
 
 DIRNAMES = ["a", "ab", "b", "a b", ".h", ".hid den", "x", "xyz", "c d", "*x"]
 HOME = "/hh"
+# homes a tilde-prefix is resolved against: the result of tilde expansion is never split, globbed or dropped
+HOMES = ["/hh", "/h h", "*", "", "a*", " /x ", "/h\th", ".h*", "a b"]
 VARS = {"e": "", "s": " a  b ", "m": "x y z", "g": "*", "g2": "a* .h", "t": "a\tb\nc", "c": "a:b c", "q": "'a b'", "w": "ab"}
 UNSET = ["n"]
 ARR = {"k": ["1 2", "", "*"], "k0": []}
@@ -37,12 +39,34 @@ def sq(s):
 
 class P:
     """a word piece: shell text + model tokens + feature tags"""
-    def __init__(self, text, toks, feats=()):
+    def __init__(self, text, toks, feats=(), home=None):
         self.text, self.toks, self.feats = text, list(toks), set(feats)
+        self.home = HOME if home is None else home
 
 
 def cat(ps):
-    return P("".join(p.text for p in ps), [t for p in ps for t in p.toks], set().union(*[p.feats for p in ps]) if ps else set())
+    homes = [p.home for p in ps if p.home != HOME]
+    return P("".join(p.text for p in ps), [t for p in ps for t in p.toks], set().union(*[p.feats for p in ps]) if ps else set(),
+             home=homes[0] if homes else None)
+
+
+def _tw(text, toks, feats):
+    return P(text, toks, set(feats) | {"tilde"})
+
+
+# tilde words of the exhaustive family (also the only ones used with an empty home)
+TILDE_BRACE_WORDS = [
+    _tw("{~,a}", ["B(", "H", "B|", "Ta", "B)"], {"brace"}),
+    _tw("{a,~}", ["B(", "Ta", "B|", "H", "B)"], {"brace"}),
+    _tw("{~/x,~/y}", ["B(", "H", "T/x", "B|", "H", "T/y", "B)"], {"brace"}),
+    _tw("~/b{x,y}", ["H", "T/b", "B(", "Tx", "B|", "Ty", "B)"], {"brace"}),
+    _tw("~{,/a}", ["H", "B(", "B|", "T/a", "B)"], {"brace"}),
+    _tw("{a,~/b}c", ["B(", "Ta", "B|", "H", "T/b", "B)", "Tc"], {"brace"}),
+    _tw("{~/a,b}", ["B(", "H", "T/a", "B|", "Tb", "B)"], {"brace"}),
+    _tw("x{~,a}", ["Tx", "B(", "H", "B|", "Ta", "B)"], {"brace"}),
+    _tw("~/{a,b}/~", ["H", "T/", "B(", "Ta", "B|", "Tb", "B)", "T/~"], {"brace"}),
+]
+EMPTY_HOME_WORDS = [_tw("~", ["H"], ()), _tw("~/", ["H", "T/"], ()), _tw("~/a", ["H", "T/a"], ())] + TILDE_BRACE_WORDS
 
 
 class Gen:
@@ -188,6 +212,9 @@ class Gen:
     def braces(self):
         alts = []
         for _ in range(self.r.randint(2, 3)):
+            if getattr(self, "tilde_in_braces", False) and self.r.random() < 0.5:
+                alts.append(self.tilde_alt())
+                continue
             ps = [self.piece(braces=False) for _ in range(self.r.choice([0, 1, 1, 1, 2]))]
             # inside a brace expression: no unquoted comma/brace characters are generated; fine
             alts.append(cat(ps))
@@ -199,20 +226,55 @@ class Gen:
         toks.append("B)")
         return P("{" + ",".join(a.text for a in alts) + "}", toks, set().union(*[a.feats for a in alts]) | {"brace"})
 
-    def word(self, maxp):
-        if self.r.random() < 0.02:
+    def tilde_alt(self):
+        """a brace alternative that starts with a tilde-prefix: `~`, `~/`, `~/a`, `~/<piece>`"""
+        r = self.r.random()
+        if r < 0.35:
             return P("~", ["H"], {"tilde"})
+        if r < 0.7:
+            t = self.r.choice(["/", "/a", "/a*", "/x"])
+            return P("~" + t, ["H", "T" + t], {"tilde"} | ({"glob"} if "*" in t else set()))
+        rest = self.piece(braces=False)
+        return P("~/" + rest.text, ["H", "T/"] + rest.toks, {"tilde"} | rest.feats)
+
+    def word(self, maxp):
+        x = self.r.random()
+        if x < 0.09:
+            # a tilde-prefix: alone, before `/text`, before `/` and further pieces, in front of or inside a brace
+            # expression — under a home with blanks, glob characters or nothing in it
+            home = self.r.choice(HOMES)
+            if home == "":
+                # an empty home makes `~/…` an absolute path: no glob-capable piece after it (the model's directory
+                # is one level deep, the real root is not modelled)
+                w = self.r.choice(EMPTY_HOME_WORDS)
+                return P(w.text, w.toks, w.feats, home=home)
+            if x < 0.02:
+                w = P("~", ["H"], {"tilde"})
+            elif x < 0.04:
+                t = self.r.choice(["/", "/a", "/*", "/a*", "/x y"[:2]])
+                w = P("~" + t, ["H", "T" + t], {"tilde"} | ({"glob"} if "*" in t else set()))
+            elif x < 0.065:
+                rest = cat([self.piece() for _ in range(self.r.randint(1, max(1, maxp - 1)))])
+                w = P("~/" + rest.text, ["H", "T/"] + rest.toks, {"tilde"} | rest.feats)
+            else:
+                self.tilde_in_braces = True
+                try:
+                    w = cat([self.piece() if i else self.braces() for i in range(self.r.randint(1, max(1, maxp - 1)))])
+                finally:
+                    self.tilde_in_braces = False
+            w.home = home
+            return w
         return cat([self.piece() for _ in range(self.r.randint(1, maxp))])
 
 
-def env_fields(ifs, args):
+def env_fields(ifs, args, home=HOME):
     f = []
     if ifs == "u":
         f.append("u")
     else:
         f.append(esc("i" + ifs))
     f.append(esc("oE"))
-    f.append(esc("h" + HOME))
+    f.append(esc("h" + home))
     for n, v in VARS.items():
         f.append(esc("v%s=%s" % (n, v)))
     for n, els in ARR.items():
@@ -223,7 +285,7 @@ def env_fields(ifs, args):
 
 
 def make_line(root, ifs, args, w):
-    return " ".join([esc("d" + root)] + env_fields(ifs, args) + [esc("n" + n) for n in DIRNAMES] +
+    return " ".join([esc("d" + root)] + env_fields(ifs, args, w.home) + [esc("n" + n) for n in DIRNAMES] +
                     ["Kb"] + [esc(t) for t in w.toks] + [esc("w" + w.text)])
 
 
@@ -239,6 +301,7 @@ def script_for(words, ifs, args, nonce):
     setargs = "set --" + "".join(" " + sq(a) for a in args)
     for j, w in enumerate(words):
         L.append(setargs)
+        L.append("HOME=" + sq(w.home))
         L.append("set -- " + w.text)
         L.append("printf '%%s\\0' '=MARK-%s-%d=' \"$#\" \"$@\"" % (nonce, j))
     return "\n".join(L) + "\n"
@@ -281,10 +344,50 @@ def empty_brace_alt(toks):
     return False
 
 
-def clause_of(w, ifs, args, brush, bash, impl, spec):
-    """name the recorded defect class a brush/bash difference falls into (by the feature that triggers it)"""
+def tilde_only_difference(brush, bash, home):
+    """same number of arguments, and the differing ones are `~…` in brush where bash has `<home>…`"""
+    if not isinstance(brush, list) or not isinstance(bash, list) or len(brush) != len(bash):
+        return False
+    hit = False
+    for x, y in zip(brush, bash):
+        if x == y:
+            continue
+        if x.startswith("~") and y == home + x[1:]:
+            hit = True
+        else:
+            return False
+    return hit
+
+
+def dot_fix_matches(lst, bash):
+    """`lst` has unmatched patterns starting with '.' where bash has the dot-files they match (an empty quoted or
+    empty-valued piece precedes the dot): replacing some of them by their matches gives bash's list"""
+    import fnmatch
+    import itertools
+    cands = [i for i, x in enumerate(lst) if x.startswith(".") and any(c in x for c in "*?[")][:5]
+    for pick in itertools.product([False, True], repeat=len(cands)):
+        if not any(pick):
+            continue
+        chosen = {i for i, p in zip(cands, pick) if p}
+        fixed = []
+        for i, x in enumerate(lst):
+            m = sorted(n for n in DIRNAMES if fnmatch.fnmatchcase(n, x)) if i in chosen else []
+            fixed += m if m else [x]
+        if fixed == bash:
+            return True
+    return False
+
+
+def clause_of(w, ifs, args, brush, bash, impl, spec, dflags=""):
+    """name the recorded defect class a brush/bash difference falls into (by the feature that triggers it).
+    `dflags`: the conjuncts of the proved domain (Props/C05.lean InDomain) the case violates, from the driver."""
     import re
     ifsv = " \t\n" if ifs == "u" else ifs
+    # a tilde-prefix lost in the joined text of a brace expansion: tested first, and only when it is the whole
+    # difference (so it neither swallows nor is swallowed by the other brace clauses)
+    if "tilde" in w.feats and "brace" in w.feats and "t" in dflags and brush == impl \
+            and tilde_only_difference(brush, bash, w.home):
+        return "tilde_after_brace_alternative_not_expanded"
     if "brace" in w.feats and " " not in ifsv:
         return "brace_alternatives_joined_with_space"
     if "star" in w.feats and ifsv == "":
@@ -295,22 +398,24 @@ def clause_of(w, ifs, args, brush, bash, impl, spec):
     if "at" in w.feats and "dq" in w.feats and isinstance(brush, list) and isinstance(bash, list) \
             and len(brush) > len(bash) and [x for x in brush if x != ""] == [x for x in bash if x != ""]:
         return "empty_at_in_quotes_with_null_rest_keeps_field"
-    if isinstance(brush, list) and isinstance(bash, list) and brush == impl:
-        # an unmatched pattern starting with '.' in brush's list where bash has the dot-files it matches,
-        # in a word where an empty quoted/empty-valued piece precedes the dot
-        import fnmatch
-        import itertools
-        cands = [i for i, x in enumerate(brush) if x.startswith(".") and any(c in x for c in "*?[")][:5]
-        for pick in itertools.product([False, True], repeat=len(cands)):
-            if not any(pick):
-                continue
-            chosen = {i for i, p in zip(cands, pick) if p}
-            fixed = []
-            for i, x in enumerate(brush):
-                m = sorted(n for n in DIRNAMES if fnmatch.fnmatchcase(n, x)) if i in chosen else []
-                fixed += m if m else [x]
-            if fixed == bash:
-                return "leading_empty_quoted_piece_hides_dotfiles"
+    if isinstance(brush, list) and isinstance(bash, list) and brush == impl and dot_fix_matches(brush, bash):
+        return "leading_empty_quoted_piece_hides_dotfiles"
+    # several recorded defects at once (e.g. `{,~/a}`: empty alternative kept AND tilde-prefix lost): DESIGN.md §4 —
+    # brush == impl, bash == spec, outside the proved domain; named after the first failing conjunct
+    # (the reference semantics shares brush's glob and `"$@"` code, so `spec` may still differ from bash by C05-4/C05-5)
+    spec_ok = bash == spec or (isinstance(spec, list) and isinstance(bash, list) and (
+        dot_fix_matches(spec, bash) or
+        ("at" in w.feats and "dq" in w.feats and len(spec) > len(bash)
+         and [x for x in spec if x != ""] == [x for x in bash if x != ""])))
+    if brush == impl and spec_ok and dflags not in ("", "?"):
+        if "e" in dflags and "star" in w.feats:
+            return "star_joined_with_space_when_ifs_empty"
+        if "s" in dflags:
+            return "brace_alternatives_joined_with_space"
+        if "n" in dflags:
+            return "empty_brace_alternative_kept"
+        if "t" in dflags and "tilde" in w.feats and "brace" in w.feats:
+            return "tilde_after_brace_alternative_not_expanded"
     return None
 
 
@@ -350,10 +455,11 @@ def decide(ctx, root, cases, tag):
         parts = m.split(" %| ")
         impl, unmod = c04.parse_res(parts[0])
         spec, _ = c04.parse_res(parts[1]) if len(parts) > 1 else ("?", False)
+        dflags = parts[2][1:] if len(parts) > 2 and parts[2].startswith("D") else "?"
         bin_, _ = c04.parse_res(b)
         brush, bash = bin_b.get(idx), bin_o.get(idx)
-        case = {"word": w.text, "tokens": w.toks, "feats": sorted(w.feats), "ifs": ifs, "args": args,
-                "brush": brush, "bash": bash, "brush_inproc": bin_, "impl": impl, "spec": spec}
+        case = {"word": w.text, "tokens": w.toks, "feats": sorted(w.feats), "home": w.home, "ifs": ifs, "args": args,
+                "brush": brush, "bash": bash, "brush_inproc": bin_, "impl": impl, "spec": spec, "outside_domain": dflags}
         if bash is not None and spec != bash and not unmod:
             ctx.oracle_mismatch += 1
             if len(ctx.notes) < 8:
@@ -367,7 +473,7 @@ def decide(ctx, root, cases, tag):
         if not prop_fail and not tie_fail:
             continue
         if prop_fail:
-            cl = clause_of(w, ifs, args, brush, bash, impl, spec)
+            cl = clause_of(w, ifs, args, brush, bash, impl, spec, dflags)
             what = "argument list differs from bash's: brush %r, bash %r" % (brush, bash)
             if cl and not tie_fail:
                 ctx.known_or_violation(cl, what, case)
@@ -395,6 +501,18 @@ def small_words():
     for a in base:
         for b in base:
             out.append(cat([a, b]))
+    for home in HOMES:
+        for w in TILDE_BRACE_WORDS:
+            out.append(P(w.text, w.toks, w.feats, home=home))
+        out.append(P("~", ["H"], {"tilde"}, home=home))
+        for t in ("/", "/a", "/*", "/a*"):
+            if home == "" and "*" in t:
+                continue          # `/*` would list the real root directory (not modelled)
+            out.append(P("~" + t, ["H", "T" + t], {"tilde"}, home=home))
+        for b in base[:12]:
+            if home == "" and (b.feats & {"glob", "var", "at", "star"}):
+                continue
+            out.append(P("~/" + b.text, ["H", "T/"] + b.toks, {"tilde"} | b.feats, home=home))
     return out
 
 
@@ -416,7 +534,7 @@ def run(ctx):
             for f in sorted(os.listdir(cdir)):
                 if f.endswith(".json"):
                     for c in json.load(open(os.path.join(cdir, f))):
-                        cases.append((P(c["word"], c["tokens"], c.get("feats", ())), "corpus", c["ifs"], c["args"]))
+                        cases.append((P(c["word"], c["tokens"], c.get("feats", ()), home=c.get("home")), "corpus", c["ifs"], c["args"]))
         ncorp = len(cases)
         sw = small_words()
         for i, w in enumerate(sw):
@@ -454,7 +572,7 @@ def replay(ctx, rp):
     root = tempfile.mkdtemp(prefix="c05-dir-")
     try:
         c04.make_dir(root, DIRNAMES)
-        w = P(c["word"], c["tokens"], c.get("feats", ()))
+        w = P(c["word"], c["tokens"], c.get("feats", ()), home=c.get("home"))
         line = make_line(root, c["ifs"], c["args"], w)
         _, b, _ = lib.run_vh(BIN, [line])
         m = lib.run_drv(["C04 " + line])[0].split(" %| ")
